@@ -15,7 +15,10 @@ RULE = ("the real fallback plugin, built as the loader builds it (args map -> ut
         "primary/secondary executables), under 24 schedules enforced "
         "through the verif schedule points (primary parked at 'mid', secondary parked at 'ready'/'send', executables released "
         "on recorded events, threshold 60 s = cannot fire or 20 ms = may fire any time, caller cancel, 40 ms deadline) x all "
-        "3x3 outcomes x always_standby on/off x repeats, then seeded random picks biased to both-answer; the configuration path: "
+        "3x3 outcomes x always_standby on/off x repeats, then seeded random picks biased to both-answer; what the property says must "
+        "not matter is varied systematically across the repeats and is NOT in the literal (see desc): 'no answer' produced by "
+        "never setting a response or by setting one and removing it with the real drop_resp plugin, 'error' with or without a "
+        "response attached, a fresh query context or one back-dated to twice the threshold (an earlier slow step); the configuration path: "
         "threshold unset/0/negative/1/50/100/499/500/501/800/60000 ms (+ random values) x always_standby, observed = the duration "
         "the threshold timer is armed with and the standby flag in the constructed plugin; two coarse end-to-end timing cases "
         "(threshold 50 ms configured, secondary started/released within 400 ms, best of three); six two-call sequences that first "
@@ -25,6 +28,7 @@ RULE = ("the real fallback plugin, built as the loader builds it (args map -> ut
         "caller's context ends, or a positive threshold is configured; distinct = distinct Gallina literal (repeats with the same "
         "observation collapse)")
 ASSUMPTIONS = [
+    "query_context.Context.SetResponse/R behave as a plain cell (SetResponse(nil) removes the response); exercised through the real drop_resp plugin",
     "Go channel semantics as modelled: buffered FIFO channel, close is seen by every receiver, select takes any ready case",
     "the primary and secondary executables return (they run under a deadline context); their outcome is a parameter",
     "time.Timer fires no earlier than its duration (the 60 s threshold does not fire during a case); a timer from pkg/pool behaves like a fresh timer "
@@ -35,11 +39,13 @@ TRUSTED_BASE = [
     "hand-written model coq/Model/Fallback.v tied to plugin/executable/sequence/fallback/fallback.go doFallback by "
     "(a) Gen/FallbackFacts.v regenerated from the AST on every run: order of respChan<-r / close(primDone), order of "
     "close(primFailed) / respChan<-nil, capacity of respChan, collection rounds, cases of the secondary's two selects, the "
+    "argument of pool.GetTimer in the secondary goroutine (must be the configured field itself), the "
     "statements of newFallbackPlugin that compute fastFallbackDuration from args.Threshold translated into the Gallina function "
     "fallback_effective_threshold (proved equal to Model.Fallback.effective_threshold), the source of alwaysStandby, and "
     "(b) differential execution under enforced schedules (Judge.C20.agree explores the same gated transition system the theorems are about)",
     "goroutine identification in the driver via runtime.Stack (maps a schedule point to its case); reflection to read the "
-    "unexported fields fastFallbackDuration / alwaysStandby of the constructed plugin",
+    "unexported fields fastFallbackDuration / alwaysStandby of the constructed plugin, and reflect+unsafe to back-date "
+    "query_context.Context.startTime (the driver exits 2 if that field disappears)",
 ]
 LEVEL_TEXT = ("Theorems in coq/Properties/C20.v, for all 3x3 worker outcomes, always_standby on/off, timer/deadline/context may-or-may-not "
               "fire, and ALL interleavings of primary, secondary, collector and those events (finite state space: 2 workers, channel "
